@@ -74,6 +74,16 @@ def run(pid, tier, seed):
                 transitions += st["bfs"]["generated"]
             if "sim" in st and st["sim"].get("generated"):
                 transitions += st["sim"]["generated"]
+        if pid in ("C03", "C06"):
+            # concurrency model of the growth path: pool bound, no self-locking, every pick finishes (specs/PoolConc.tla)
+            for cfgc in ("PoolConc_fixed.cfg",) + (("PoolConc_3picks.cfg",) if tier != "quick" else ()):
+                rc_ = vlib.tlc(scratch, "PoolConc", cfgc, workers=8, timeout=900, tag=cfgc[:-4])
+                mstats.append({"family": "PoolConc/" + cfgc, "bfs": {"distinct": rc_.get("distinct"), "generated": rc_.get("generated"),
+                                                                     "wall": rc_["wall"], "violated": rc_["violated"]}})
+                states += rc_.get("distinct") or 0
+                transitions += rc_.get("generated") or 0
+                if rc_["violated"] or rc_["errors"]:
+                    raise Infra("PoolConc (%s) fails on the repaired design: %s %s" % (cfgc, rc_["violated"], rc_["errors"][:2]))
         cex_ids = []
         for k, pr in enumerate(problems):
             for cs in pr.get("cex_scripts", []):
@@ -93,6 +103,18 @@ def run(pid, tier, seed):
                         fo.write(ln)
         for j in jobs:
             scripts.append({"id": j["id"], "random_job": j})
+        if pid == "C03":
+            # schedule stress: concurrent picks on different pickers with yields at every lock (PoolConc's interleaving)
+            bing = pool.build_pool_harness(scratch, gates=True)
+            strp = scratch.path("stress-trace.ndjson")
+            rcs, outs = vlib.run_test_binary(bing, "TestVerifStressGrowth", {"VERIF_OUT": strp, "VERIF_SEED": str(seed),
+                                                                            "VERIF_N": "60" if tier == "quick" else "1500"}, timeout=3000)
+            if "VERIF-STRESS-GROWTH" not in outs:
+                raise Infra("growth stress driver failed:\n" + outs[-2500:])
+            with open(tr, "a") as fo:
+                for ln in open(strp):
+                    fo.write(ln)
+            scripts.append({"id": "stress-0", "stress": "growth", "seed": seed})
         verdict = pool.validate_trace(scratch, tr, "tv")
         # --- violations of this property's clauses
         mine = []
